@@ -23,6 +23,27 @@ type Conn struct {
 	Writes    int
 	WriteHook func(p []byte) // optional, called with every broker write (under lock)
 	addr      net.Addr
+	failWrites   bool
+	FailedWrites int
+	stallWrites   bool
+	BlockedWrites int // writers currently waiting in a stalled Write
+}
+
+// StallWrites makes broker writes block (on=true) until released (on=false).
+func (c *Conn) StallWrites(on bool) {
+	c.mu.Lock()
+	c.stallWrites = on
+	c.cond.Broadcast()
+	c.mu.Unlock()
+}
+
+var errBrokenPipe = &net.OpError{Op: "write", Net: "tcp", Err: io.ErrClosedPipe}
+
+// FailWrites makes every later broker write fail (the connection stays open for reading).
+func (c *Conn) FailWrites() {
+	c.mu.Lock()
+	c.failWrites = true
+	c.mu.Unlock()
 }
 
 // New creates a connection.
@@ -80,6 +101,21 @@ func (c *Conn) Write(p []byte) (int, error) {
 	defer c.mu.Unlock()
 	if c.closed {
 		return 0, io.ErrClosedPipe
+	}
+	for c.stallWrites && !c.closed {
+		// a consumer that stopped reading: the write blocks until the harness releases it
+		c.BlockedWrites++
+		c.cond.Wait()
+		c.BlockedWrites--
+	}
+	if c.closed {
+		return 0, io.ErrClosedPipe
+	}
+	if c.failWrites {
+		// a peer that went away without the broker having noticed yet (half-open TCP connection, write
+		// deadline of a stalled consumer): every write fails while reads keep blocking
+		c.FailedWrites++
+		return 0, errBrokenPipe
 	}
 	c.out = append(c.out, p...)
 	c.Writes++
